@@ -63,6 +63,7 @@ def generate(ck):
         {"kind": "profiles", "cls": "single", "nx": 10, "table": {"kind": "shipped", "name": "pvt_gas"}, "p_i": 8000.0, "p_f": 3000.0, "alpha_branch": False, "reused": False, "schedule": {"kind": "random-walk", "seed": 5, "n_steps": 4}, "sched_as": "ndarray", "grid": {"family": "quadratic", "nt": 40, "t_end": 3.0, "seed": 0}, "every": 1, "rescale": True, "decoy": False},
         {"kind": "profiles", "cls": "single", "nx": 30, "table": {"kind": "shipped", "name": "haynesville"}, "p_i": 9000.0, "p_f": 2000.0, "alpha_branch": False, "reused": False, "schedule": {"kind": "random-walk", "seed": 11, "n_steps": 3}, "sched_as": "list", "grid": {"family": "uniform", "nt": 150, "t_end": 2.0, "seed": 0}, "every": 7, "rescale": True, "decoy": True},
     ]
+    descs.append({"kind": "foreign-scale"})
     for i in range(n):
         k = i % 8
         if k in (0, 1, 2):
@@ -96,6 +97,44 @@ def run_case(ck, desc):
     import bluebonnet.plotting as bp
 
     kind = desc["kind"]
+    if kind == "foreign-scale":
+        # matplotlib's scale registry is process-wide: another package (or the user) has registered a scale
+        # under the name "squareroot" BEFORE bluebonnet is imported. The library's figures still use the
+        # library's square root. One child interpreter; judged on the axis actually used.
+        import json
+        import os
+        import subprocess
+        import sys
+
+        from vf import harness
+
+        code = (
+            "import json, warnings\nwarnings.simplefilter('ignore')\nimport matplotlib\nmatplotlib.use('Agg')\n"
+            "import numpy as np\nimport matplotlib.scale as ms\n"
+            "class Other(ms.FuncScale):\n    name = 'squareroot'\n    def __init__(self, axis):\n        super().__init__(axis, functions=(lambda x: x, lambda x: x))\n"
+            "ms.register_scale(Other)\n"
+            "from bluebonnet.flow import IdealReservoir\nimport bluebonnet.plotting as bp\n"
+            "r = IdealReservoir(20, 1000.0, 5000.0, None)\nr.simulate(np.linspace(0, 2, 30) ** 2)\n"
+            "ax = bp.plot_recovery_factor(r)\n"
+            "T = ax.xaxis.get_transform()\nq = np.array([0.0, 0.25, 1.0, 4.0])\n"
+            "print('VFOUT' + json.dumps({'scale': ax.get_xscale(), 'values': [float(v) for v in np.asarray(T.transform(q))]}))\n"
+        )
+        env = dict(os.environ, PYTHONPATH=os.path.join(harness.REPO, "src"), MPLBACKEND="Agg")
+        try:
+            r_ = subprocess.run([sys.executable, "-c", code], capture_output=True, text=True, timeout=240, env=env)
+        except subprocess.TimeoutExpired:
+            ck.inconclusive_because("foreign-scale child timed out")
+            return False, None
+        out_ = [ln for ln in r_.stdout.splitlines() if ln.startswith("VFOUT")]
+        if not out_:
+            ck.inconclusive_because(f"foreign-scale child gave no result: rc={r_.returncode} {r_.stderr[-200:]}")
+            return False, None
+        d_ = json.loads(out_[0][5:])
+        want_ = [0.0, 0.5, 1.0, 2.0]
+        if not np.allclose(d_["values"], want_, rtol=4e-16, atol=0):
+            ck.violation("axis-transform-is-the-square-root", {"with": "a foreign scale registered under the same name before import", "transform(0, .25, 1, 4)": d_["values"], "xscale": d_["scale"]}, desc)
+        ck.count("figures_drawn_with_a_foreign_scale_registered_first")
+        return True, d_
     try:
         if kind in ("profiles", "recovery"):
             res, time, sched, fluid, _ = sim.build(desc)
@@ -236,7 +275,10 @@ def run_case(ck, desc):
             P.add("p_initial", value=desc["p_i"])
             with warnings.catch_warnings(), np.errstate(all="ignore"):
                 warnings.simplefilter("ignore")
-                fig, (ax1, ax2) = plot_production_comparison(prod, pvt, P, filter_window_size=desc["window"], filter_zero_prod_days=desc["filter"])
+                if int(desc["seed"]) % 2:
+                    fig, (ax1, ax2) = plot_production_comparison(prod, pvt, P, desc["window"], desc["filter"])  # (documented order, positionally)
+                else:
+                    fig, (ax1, ax2) = plot_production_comparison(prod, pvt, P, filter_window_size=desc["window"], filter_zero_prod_days=desc["filter"])
             keep = gas > 0 if desc["filter"] else np.ones(n, dtype=bool)
             t = np.arange(int(keep.sum())) if desc["filter"] else prod["Days"].to_numpy(dtype=float)
             pfk = pf[keep]
